@@ -502,6 +502,22 @@ def run_setlink(case, r):
             if [float(x) for x in d1.ticks] != [0.5, 2.5, 4.0]:
                 r.viol("C05|framelink|ticks-are-a-snapshot", "ticks %r after changing the column" % (list(d1.ticks),), {})
                 return
+            # unit written through the dimension: refused, or it is the unit of that very column afterwards
+            r.evals += 1
+            try:
+                d1.unit = "s"
+                uexc = None
+            except Exception as e:  # noqa
+                uexc = e
+            units_now = [None if u in (None, "") else u for u in df.units]
+            if uexc is None and (units_now != [None, "s"] or da.dimensions[1].unit != "s"):
+                r.viol("C05|framelink|unit-write-through-lost-or-misplaced",
+                       "unit 's' set through the dimension linked to column 1: frame units %r, dimension unit %r" % (list(df.units), da.dimensions[1].unit), {})
+                return
+            if uexc is not None and units_now != [None, "ms"]:
+                r.viol("C05|framelink|refused-unit-changed-frame", "refused unit change left frame units %r" % (list(df.units),), {})
+                return
+            df.units = [None, "ms"]
             sd2 = b.create_data_array("d2", "t", data=np.zeros(3)).append_set_dimension()
             sd2.link_data_frame(df, 0)
             if list(b.data_arrays["d2"].dimensions[0].labels) != ["a", "b", "c"]:
